@@ -1,6 +1,7 @@
 import NixModel.Pure.DataView
 import NixModel.Lemmas.C06Slice
 import NixModel.Lemmas.C06View
+import NixModel.Lemmas.C06Array
 
 /-!
 # C06 — index expressions on arrays and views mean what they mean in NumPy
@@ -189,6 +190,36 @@ theorem C06_write_exact (v : View) (hv : ViewOK v) (ix : List Ix) (hp : PosSteps
     rcases h with h | h
     · exact Or.inl (by simp [viewWrite, hv.1, h])
     · exact Or.inr (by simp [viewWrite, hv.1, h])
+
+/-- **Indexing a DataArray = NumPy** (on the h5py stand-in `h5Select`): for every shape and every
+tuple of integers, positive-step slices and ellipses, `array[ix]` / `array[ix] = data` address
+exactly NumPy's selection (a rank-0 read comes back with `resultShape = [1]`); whenever NumPy
+refuses the tuple (integer out of range, surplus indices, second ellipsis) the read is refused
+with `IndexError` and the assignment is refused. -/
+theorem C06_array (shape : List Nat) (ix : List Ix) (hp : PosSteps ix) :
+    match npSelect shape ix with
+    | .ok sel => daRead shape ix = .ok sel ∧ daWrite shape ix = .ok sel
+    | .error _ => daRead shape ix = .error .indexError ∧ ∃ e, daWrite shape ix = .error e := by
+  by_cases hw : countEllipsis ix ≤ 1 ∧ countAxes ix ≤ shape.length
+  · have heq := h5Select_eq_npSelect shape ix hp hw.1 hw.2
+    split
+    · rename_i sel hsel
+      rw [← heq] at hsel
+      simp [daRead, daWrite, hsel]
+    · rename_i e he
+      rw [← heq] at he
+      have hc := h5Scan_err_class _ _ _ _ _ _ he
+      exact ⟨by simp [daRead, he, hc], e, by simp [daWrite, he]⟩
+  · have hbad : countEllipsis ix > 1 ∨ countAxes ix > shape.length := by omega
+    obtain ⟨e, he⟩ := h5Select_refuses shape ix hbad
+    have hc := h5Scan_err_class _ _ _ _ _ _ he
+    have hnp : npSelect shape ix = .error .indexError := by
+      unfold npSelect expandIx
+      rcases hbad with h | h
+      · simp [h]
+      · by_cases h' : countEllipsis ix > 1 <;> simp [h, h']
+    rw [hnp]
+    exact ⟨by simp [daRead, he, hc], e, by simp [daWrite, he]⟩
 
 /-! Non-vacuity: concrete views and tuples meeting the hypotheses, evaluated by the kernel. -/
 
